@@ -1,6 +1,8 @@
 import ApolloModel.Proofs.SchemaValidation
 import ApolloModel.Proofs.DirectiveSearch
 import ApolloModel.Proofs.Implementation
+import ApolloModel.Proofs.DirectiveApplications
+import ApolloModel.Proofs.StickyBuild
 /-
 C14 — Schema validation agrees with the specification.
 
@@ -241,5 +243,80 @@ theorem reference_kinds_rule_iff_spec (kindOf : String → Option Kind) (t : Typ
 open Apollo.Implementation Apollo.SchemaInvariants in
 example : (implDiags (fun a c => a == "Node" && c == "A") (fun _ => some [⟨"f", .list (.named "Node"), [⟨"a", "Int", false⟩]⟩])
     [⟨"f", .nonNullList (.nonNullNamed "A"), [⟨"a", "Int", false⟩, ⟨"c", "Int!", true⟩]⟩] [0]).length = 1 := by decide
+
+/-! ### growth 2: directive applications in the schema, and the uniqueness rules -/
+
+/-- Directive applications (`validate_directives` with a schema — the same model as C20's, instantiated
+    with a type-system location): no diagnostic iff every applied directive is defined (§5.7.1), allowed at
+    the location (§5.7.2), a non-repeatable directive is applied at most once (§5.7.3), and its arguments
+    are defined (§5.4.1), unique (§5.4.2) and the required ones present and not `null` (§5.4.2.1).
+    Argument value typing is not part of the model. -/
+theorem directive_applications_rule_iff_spec (dirDef : Standalone.Name → Option Standalone.DirDef)
+    (loc : Standalone.Loc) (dirs : List Standalone.Dir) :
+    DirApps.schemaDirDiags dirDef loc dirs = [] ↔ DirApps.Spec.DirectivesValid dirDef loc dirs :=
+  DirApps.schemaDirDiags_nil_iff dirDef loc dirs
+
+/-- `validate_argument_definitions`: no `UniqueInputValue` iff the argument names are pairwise distinct. -/
+theorem argument_definitions_unique_iff (names : List Standalone.Name) :
+    DirApps.argDefDups [] names = 0 ↔ names.Nodup := by
+  rw [DirApps.argDefDups_zero_iff]; simp
+
+/-- Build-time uniqueness (`extend_sticky` / `collect_sticky`, model of C13): a collision diagnostic
+    (`…FieldNameCollision`, `EnumValueNameCollision`, `UnionMemberNameCollision`, `InputFieldNameCollision`,
+    `DuplicateImplementsInterface…`, `DuplicateRootOperation`) is pushed iff a name occurs twice — already
+    present from the definition / an earlier extension, or repeated in the list being added. -/
+theorem build_reports_iff_duplicate (dup : SchemaBuild.Name → SchemaBuild.Diag) (origin : Option SchemaBuild.Pos)
+    (items : List SchemaBuild.Item) (cs : List SchemaBuild.Comp) (errs : List SchemaBuild.Err) :
+    (SchemaBuild.extendSticky dup origin cs errs items).2 = errs ↔
+      (∀ it ∈ items, SchemaBuild.hasName cs it.name = false) ∧ (items.map (·.name)).Nodup :=
+  SchemaBuild.extendSticky_reports_iff_duplicate dup origin items cs errs
+
+/-- …and whatever is reported, the built list never holds a name twice (the first definition wins). -/
+theorem build_first_definition_wins (dup : SchemaBuild.Name → SchemaBuild.Diag) (origin : Option SchemaBuild.Pos)
+    (items : List SchemaBuild.Item) (cs : List SchemaBuild.Comp) (errs : List SchemaBuild.Err)
+    (h : (cs.map (·.name)).Nodup) :
+    ((SchemaBuild.extendSticky dup origin cs errs items).1.map (·.name)).Nodup :=
+  SchemaBuild.extendSticky_names_nodup dup origin items cs errs h
+
+open Apollo.Implementation Apollo.Implementation.Spec in
+/-- The modelled rule set, grown: input cycles, transitive interfaces, root operations, directive
+    self-reference, the implementation contract, kinds of references, directive applications, argument
+    and member uniqueness — accepted iff the specification's predicates hold.  PARTIAL: argument value
+    coercion, non-emptiness, reserved names (see C15.reserved_name_rule) and extension rules are not part
+    of this conjunction. -/
+theorem schema_verdict_iff_spec_partial2 (g : IGraph) (limit : Nat) (hg : g.length ≤ limit)
+    (s : ISchema) (q m sub : Option RootTarget)
+    (ds : DSchema) (hd : ds.dirs.length ≤ limit) (ht : ds.types.length ≤ limit)
+    (isSub : Name → Name → Bool) (getIface : Nat → Option (List FieldM)) (tfields : List FieldM) (declared : List Nat)
+    (kindOf : String → Option Kind) (refs : TypeRefs)
+    (dirDef : Standalone.Name → Option Standalone.DirDef) (loc : Standalone.Loc) (apps : List Standalone.Dir)
+    (argNames : List Standalone.Name)
+    (dup : SchemaBuild.Name → SchemaBuild.Diag) (origin : Option SchemaBuild.Pos) (items : List SchemaBuild.Item)
+    (errs : List SchemaBuild.Err) :
+    (failingInputs g limit = [] ∧
+      (∀ (a : Nat) (t : TypeInfo), s[a]? = some t → missingTransitive s t = []) ∧
+      validateRoots q m sub = [] ∧
+      failingDirectives ds limit = [] ∧
+      implDiags isSub getIface tfields declared = [] ∧
+      typeRefDiags kindOf refs = [] ∧
+      DirApps.schemaDirDiags dirDef loc apps = [] ∧
+      DirApps.argDefDups [] argNames = 0 ∧
+      (SchemaBuild.extendSticky dup origin [] errs items).2 = errs) ↔
+    ((∀ r, ¬ InputCycleThrough g r) ∧ TransitiveClosed s ∧ RootsValid q m sub ∧
+      (∀ d, ¬ DirectiveSelfReference ds d) ∧
+      (∀ i ∈ declared, ∀ ifields, getIface i = some ifields → ValidImplementation isSub tfields ifields) ∧
+      RefsRightKind kindOf refs ∧
+      DirApps.Spec.DirectivesValid dirDef loc apps ∧
+      argNames.Nodup ∧
+      (items.map (·.name)).Nodup) := by
+  rw [input_rule_iff_spec g limit hg, transitive_interfaces_iff, roots_valid_iff, directive_rule_iff_spec ds limit hd ht,
+    implementation_rule_iff_spec, reference_kinds_rule_iff_spec, directive_applications_rule_iff_spec,
+    argument_definitions_unique_iff, build_reports_iff_duplicate]
+  simp [SchemaBuild.hasName]
+
+-- Non-vacuity: `@d0(a0: Int!) on OBJECT` applied twice at OBJECT, once without its argument
+example : (DirApps.schemaDirDiags
+    (fun n => if n == 0 then some ⟨false, [DirApps.TsLoc.object.loc], [⟨0, true⟩]⟩ else none) DirApps.TsLoc.object.loc
+    [⟨0, [⟨0, .other []⟩]⟩, ⟨0, []⟩, ⟨1, []⟩]) = [.uniqueDirective, .requiredArgument, .undefinedDirective] := by decide
 
 end Apollo.C14
